@@ -243,6 +243,19 @@ def run(check):
             prog = Program([st], {"report": {"m": Expr(ref_)}}, gen.BASE_INPUT)
             scripts = gen.make_scripts([st], {name: kind} if kind in ("crash", "deployfail") else {})
             extra.append({"program": prog, "scripts": scripts, "input": {"tag": "T1", "flag": True}, "shape": "engine-text/%s/id-length-%d" % (kind, ln), "outcome": {}, "pair": None, "drift": True, "expect_out": "report"})
+    # constants for `enabled` in every spelling the declared bool type accepts, on loop and plugin steps: what preparation and the
+    # run loop's check of the stage input accept, the provider must understand
+    for kind in ("loop", "plugin"):
+        for v, truth in (("yes", True), ("no", False), ("on", True), ("off", False), ("y", True), ("n", False), ("tRuE", True), ("FALSE", False), ("enable", True), ("disabled", False), ("1", True), ("0", False), (True, True)):
+            if kind == "loop":
+                st = Step("x", "foreach", sub=gen.sub_program("sub.yaml", 1), items=[{"tag": "i0"}])
+                outs = {"ran": {"d": Expr(Ref("x", "outputs", "success", "data"))}, "skipped": {"m": Expr(Ref("x", "disabled", "output", "message"))}}
+            else:
+                st = gen.plugin_step("x", Expr(In("tag")))
+                outs = {"ran": {"t": gen.tagref("x")}, "skipped": {"m": Expr(Ref("x", "disabled", "output", "message"))}}
+            st.fields["enabled"] = v
+            extra.append({"program": Program([st], outs, gen.BASE_INPUT), "scripts": gen.make_scripts([st], {}), "input": {"tag": "T1"}, "shape": "constant-enabled/%s/%r" % (kind, v), "outcome": {}, "pair": None,
+                          "drift": True, "expect_out_if_accepted": "ran" if truth else "skipped"})
     # ill-typed single-point corruptions of valid programs: whatever preparation decides about them, a run of an accepted one
     # must not end in an internal consistency error or hand over / return ill-typed data
     from . import c10
@@ -250,9 +263,11 @@ def run(check):
     for j, g0 in enumerate(c10.programs(check, check.pick(20, 120))):
         rng = random.Random(derive_seed(check.seed, "c08-cor", j))
         for kind, p in c10.corruptions(g0, rng):
-            if not kind.startswith("illtyped-"):
+            if not (kind.startswith("illtyped-") or kind.startswith("stop-if-without-cancel-handler")):
                 continue
             scripts = gen.make_scripts(p.steps, {})
+            for src, sc in getattr(p, "scripts_needed", {}).items():
+                scripts.setdefault(src, {}).update(sc)
             inp = gen.base_input(rng, 2)
             extra.append({"program": p, "scripts": scripts, "input": inp, "shape": "corrupted:%s" % kind, "outcome": {}, "pair": None, "corruption": kind})
             ncor += 1
@@ -310,6 +325,8 @@ def run(check):
             elif run.get("schema_check"):
                 check.report("schema@workflow-output:" + g["shape"].split("/")[0], "case %s (%s): returned output %r does not match OutputSchema(): %s" % (cid, g["shape"], run.get("out_id"), run["schema_check"][:300]),
                              {"case": case, "result": runfam.strip(res)})
+            if g.get("expect_out_if_accepted") and run.get("out_id") != g["expect_out_if_accepted"] and "bug:" not in err.lower():
+                check.report("result@" + g["shape"].split("/")[0], "case %s (%s): accepted, expected output %r, got %r / %s" % (cid, g["shape"], g["expect_out_if_accepted"], run.get("out_id"), err[:300]), {"case": case, "result": runfam.strip(res)})
             if g.get("expect_out") and run.get("out_id") != g["expect_out"] and "bug:" not in err.lower():
                 check.report("result@" + g["shape"].split("/")[0], "case %s (%s): expected output %r, got %r / %s" % (cid, g["shape"], g["expect_out"], run.get("out_id"), err[:300]), {"case": case, "result": runfam.strip(res)})
             check.nontrivial(g["shape"])
